@@ -52,3 +52,9 @@ pub proof fn lemma_poly_ids_mem(t: Seq<v1::Monomial>, n: int, k: u64)
         }
     }
 }
+// mono_ids of a list
+pub proof fn lemma_mono_ids_mem(ids: Seq<u64>, n: int, k: u64)
+    requires 0 <= n <= ids.len()
+    ensures mono_ids(ids, n).contains(k) <==> exists|j: int| 0 <= j < n && ids[j] == k
+    decreases n
+{ if n > 0 { lemma_mono_ids_mem(ids, n - 1, k); } }
